@@ -41,7 +41,7 @@ def _stmts(prog, vals):
 @excl("KF-minmax-empty")
 def _minmax_empty(prog, vals):
     """min/max (NumPy-defined) over an input with a zero-length non-reduced axis."""
-    return any(s["op"] in ("min", "max") and a[0].size == 0 for s, a, r in _stmts(prog, vals))
+    return any(s["op"] in ("min", "max", "argmin", "argmax") and a[0].size == 0 for s, a, r in _stmts(prog, vals))
 
 
 @excl("KF-tensordot-int-dtype")
